@@ -128,15 +128,20 @@ func write(w *parse.BinaryWriter, v val) {
 	case "i64":
 		w.WriteInt64(int64(v.u))
 	case "bytes":
+		// the caller's buffer is the caller's again as soon as the call returns: it is overwritten afterwards
+		mine := append([]byte(nil), v.b...)
 		switch v.via {
 		case 0:
-			w.WriteBytes(v.b)
+			w.WriteBytes(mine)
 		case 1:
-			if n, err := w.Write(v.b); n != len(v.b) || err != nil {
-				panic(fmt.Sprintf("BinaryWriter.Write(%d bytes) = %d, %v", len(v.b), n, err))
+			if n, err := w.Write(mine); n != len(mine) || err != nil {
+				panic(fmt.Sprintf("BinaryWriter.Write(%d bytes) = %d, %v", len(mine), n, err))
 			}
 		default:
-			w.WriteString(string(v.b))
+			w.WriteString(string(mine))
+		}
+		for i := range mine {
+			mine[i] = 0xAA
 		}
 	}
 }
@@ -145,6 +150,14 @@ func write(w *parse.BinaryWriter, v val) {
 func read(r *parse.BinaryReader, v val) (uint64, []byte) {
 	switch v.kind {
 	case "u8":
+		if v.u&1 == 1 {
+			// the io.ByteReader spelling of the same read: its error is the reader's error state
+			c, err := r.ReadByte()
+			if (err != nil) != (r.Err() != nil) || err != nil && (err != r.Err() || c != 0) {
+				panic(fmt.Sprintf("ReadByte() = %#x, %v while Err() = %v", c, err, r.Err()))
+			}
+			return uint64(c), nil
+		}
 		return uint64(r.ReadUint8()), nil
 	case "u16":
 		return uint64(r.ReadUint16()), nil
@@ -376,6 +389,9 @@ func TestProp_RoundTrip(t *testing.T) {
 		}
 		pre := rapid.SliceOfN(rapid.Byte(), 0, 3).Draw(t, "prefix")
 		w := parse.NewBinaryWriter(append(make([]byte, 0, len(pre)+rapid.IntRange(0, 16).Draw(t, "spare")), pre...))
+		if len(pre) == 0 && rapid.Bool().Draw(t, "nilbuffer") {
+			w = parse.NewBinaryWriter(nil)
+		}
 		if little {
 			w.ByteOrder = binary.LittleEndian
 		}
@@ -775,11 +791,15 @@ func TestProp_Seek(t *testing.T) {
 // ---------- bitmaps
 
 func TestProp_Bitmap(t *testing.T) {
-	ev.Describe("bitmap", "random bit strings of 0-200 bits through BitmapWriter (started on a recycled buffer: length 0, up to 40 stale bytes of capacity) then BitmapReader; any buffer of 0-24 bytes read bit by bit; oracle: bits come back in order, exactly 8*len(buf) reads succeed and equal the MSB-first bits before EOF()/false; non-trivial = >= 9 bits")
+	ev.Describe("bitmap", "random bit strings of 0-200 bits through BitmapWriter (started on a recycled buffer: length 0, up to 40 stale bytes of capacity; or on a zeroed buffer of 1-30 bytes) then BitmapReader; any buffer of 0-24 bytes read bit by bit; oracle: bits come back in order, exactly 8*len(buf) reads succeed and equal the MSB-first bits before EOF()/false; non-trivial = >= 9 bits")
 	ev.Check(t, 20000, func(t *rapid.T) {
 		bits := rapid.SliceOfN(rapid.Bool(), 0, 200).Draw(t, "bits")
 		// a recycled buffer: length 0, capacity full of stale bytes
 		pre := rapid.SliceOfN(rapid.Byte(), 0, 40).Draw(t, "stale")[:0]
+		if k := rapid.IntRange(0, 30).Draw(t, "presized"); k > 0 && rapid.Bool().Draw(t, "usepresized") {
+			// or a buffer of the expected size, zeroed: the bits are written from its first byte on
+			pre = make([]byte, k, k+rapid.IntRange(0, 3).Draw(t, "presizedspare"))
+		}
 		w := parse.NewBitmapWriter(pre)
 		for _, b := range bits {
 			w.Write(b)
